@@ -5,26 +5,26 @@
 (* per observed library call / case.  The trace spec consumes exactly one   *)
 (* record per step.  Validation never stops at the first mismatch: for      *)
 (* every record the set of FAILED CLAUSES is computed by the property's     *)
-(* specification operators and accumulated in `bad`; the final state        *)
+(* specification operators and accumulated in `verdicts`; the final state        *)
 (* writes the verdict file (env OUT_FILE).  The POSTCONDITION KitPost       *)
 (* checks that every record was consumed.                                   *)
 EXTENDS Naturals, Sequences, SequencesExt, FiniteSets, TLC, Json, IOUtils
 
 Trace == ndJsonDeserialize(IOEnv.TRACE_FILE)
 
-VARIABLES l, bad
-kitVars == <<l, bad>>
+VARIABLES pos, verdicts
+kitVars == <<pos, verdicts>>
 
-KitInit == l = 1 /\ bad = <<>>
+KitInit == pos = 1 /\ verdicts = <<>>
 
 \* stateless use: F(rec) is the set of clause names the record violates
 KitNext(F(_)) ==
-    /\ l <= Len(Trace)
-    /\ LET v == F(Trace[l])
-       IN bad' = IF v = {} THEN bad ELSE Append(bad, [i |-> Trace[l].i, failed |-> SetToSeq(v)])
-    /\ l' = l + 1
+    /\ pos <= Len(Trace)
+    /\ LET v == F(Trace[pos])
+       IN verdicts' = IF v = {} THEN verdicts ELSE Append(verdicts, [i |-> Trace[pos].i, failed |-> SetToSeq(v)])
+    /\ pos' = pos + 1
 
-KitDone == (l = Len(Trace) + 1) => ndJsonSerialize(IOEnv.OUT_FILE, <<[n |-> Len(Trace), bad |-> bad]>>)
+KitDone == (pos = Len(Trace) + 1) => ndJsonSerialize(IOEnv.OUT_FILE, <<[n |-> Len(Trace), bad |-> verdicts]>>)
 KitPost == TLCGet("stats").diameter - 1 = Len(Trace)
 
 \* helpers for clause sets
